@@ -13,9 +13,10 @@ TUNNEL_ASSUME = [
     "deactivated -> ErrInsufficientSigners), maxAtt0 (tss MaxSigningAttempt = 0, accepted by Params.Validate: the round "
     "fails after the fee transfer and after the signing record were written in the cache context), tssLong (a signal id "
     "longer than 32 bytes: the TSS encoder refuses the packet after the route fee was transferred); IBC route without a "
-    "channel (ErrChannelCapabilityNotFound). NOT driven: fee above limit and a panic inside the route (unreachable on the "
-    "unchanged tree: limit and fee come from the same state in one call; the recover is defensive); a delivering IBC "
-    "route (needs a counterparty chain)",
+    "channel (ErrChannelCapabilityNotFound); panic (a panic inside the route, injected through the verif-tagged hook "
+    "x/tunnel/keeper/verif_hook.go in SendPacket because no input provokes one on the unchanged tree: SendPacket must "
+    "turn it into a failed send). NOT driven: fee above limit (unreachable: limit and fee come from the same state in one "
+    "call); a delivering IBC route (needs a counterparty chain)",
     "the status of a feeds price is not modelled because the code does not read it (only Price); prices inside stored "
     "packets are not compared (signal set per packet and the latest-price table are)",
     "signed TSS packets are not completed by member signatures: packet production happens at request time",
@@ -58,7 +59,7 @@ PROPS = {
         gen=dict(tla="Tunnel_Gen.tla", cfg="Tunnel_Gen.cfg", depth=32, num=dict(quick=250, thorough=3000), timeout=900),
         drive=dict(family="tunnel", nrand=dict(quick=250, thorough=4000)),
         trace=dict(tla="Tunnel_Trace.tla", cfg="Tunnel_Trace_C13C.cfg"),
-        rule="tunnel scripts as C08 (TSS route ok / noGroup / noNonces / inactive / maxAtt0 / tssLong, IBC route without "
+        rule="tunnel scripts as C08 (TSS route ok / noGroup / noNonces / inactive / maxAtt0 / tssLong / panic, IBC route without "
              "channel); non-trivial = a packet produced or a failed send; only fee-payer balances, the tunnel fee book and the "
              "bandtss escrow are checked",
         assumptions=TUNNEL_ASSUME,
